@@ -395,9 +395,9 @@ fn check_bufsim(o: &Opts, prop: Prop) {
 	let known = load_known(&o.verif);
 	let thorough = o.tier == "thorough";
 	let total = match prop {
-		Prop::C04 => tier_runs(o, 600_000, 24_000_000),
-		Prop::C10 => tier_runs(o, 500_000, 20_000_000),
-		Prop::C11 => tier_runs(o, 600_000, 24_000_000),
+		Prop::C04 => tier_runs(o, 3_000_000, 60_000_000),
+		Prop::C10 => tier_runs(o, 2_000_000, 30_000_000),
+		Prop::C11 => tier_runs(o, 3_000_000, 60_000_000),
 	};
 	println!("irefsim bufsim property={} tier={} seed={} runs={} jobs={} profile={}", prop.id(), o.tier, o.seed, total, o.jobs, o.profile);
 	let (corpus_n, mut known_lines) = run_corpus(o, &known, prop.id());
@@ -422,7 +422,7 @@ fn check_bufsim(o: &Opts, prop: Prop) {
 			if keep_digests {
 				w.run_digests.push((run, d));
 			}
-			if r.nontrivial && w.nontrivial.len() < 6_000_000 {
+			if r.nontrivial && w.nontrivial.len() < 2_000_000 {
 				w.nontrivial.insert(th);
 			}
 			if let Some(v) = r.violation {
@@ -577,7 +577,7 @@ struct IterWorker {
 fn check_itersim(o: &Opts) {
 	let t0 = Instant::now();
 	let known = load_known(&o.verif);
-	let total = tier_runs(o, 3_000_000, 120_000_000);
+	let total = tier_runs(o, 20_000_000, 400_000_000);
 	println!("irefsim itersim property=C12 tier={} seed={} runs={} jobs={}", o.tier, o.seed, total, o.jobs);
 	let (corpus_n, known_lines) = run_corpus(o, &known, "C12");
 	let seed = o.seed;
@@ -607,7 +607,7 @@ fn check_itersim(o: &Opts) {
 			if keep_digests {
 				w.run_digests.push((run, d));
 			}
-			if case.path.len() > 1 && w.distinct.len() < 6_000_000 {
+			if case.path.len() > 1 && w.distinct.len() < 2_000_000 {
 				w.distinct.insert(h);
 			}
 			match r {
@@ -723,7 +723,7 @@ fn check_allocsim(o: &Opts) {
 	let t0 = Instant::now();
 	let known = load_known(&o.verif);
 	let thorough = o.tier == "thorough";
-	let total = tier_runs(o, 1_500_000, 60_000_000);
+	let total = tier_runs(o, 8_000_000, 150_000_000);
 	println!("irefsim allocsim property=C20 tier={} seed={} runs={} jobs={}", o.tier, o.seed, total, o.jobs);
 	let (corpus_n, known_lines) = run_corpus(o, &known, "C20");
 	let seed = o.seed;
@@ -746,7 +746,7 @@ fn check_allocsim(o: &Opts) {
 			if keep_digests {
 				w.run_digests.push((run, d));
 			}
-			if !case.text.0.is_empty() && w.distinct.len() < 6_000_000 {
+			if !case.text.0.is_empty() && w.distinct.len() < 2_000_000 {
 				w.distinct.insert(h);
 			}
 			match r {
